@@ -124,7 +124,12 @@ pub fn run(seed: u64, n: usize, out: &mut dyn Write) {
                 if dict_cache.is_none() || rng.chance(1, 8) {
                     let cfg = GenCfg::default();
                     let mut drng = rng.fork();
-                    let d = gen_dict(&mut drng, &cfg);
+                    let mut d = gen_dict(&mut drng, &cfg);
+                    // a word whose surface is the sentence terminator of the corpus format
+                    if drng.chance(1, 2) {
+                        d.lex.extend_from_slice(b"EOS,0,0,-3,eos-word\n");
+                        d.surfaces.push("EOS".to_string());
+                    }
                     dict_cache = Some((d, cfg));
                 }
                 let (d, cfg) = dict_cache.as_ref().unwrap();
